@@ -4,7 +4,7 @@
 //! code of seeded change C19-d.)
 
 use serde::de::{self, DeserializeSeed, SeqAccess, Visitor};
-use serde::ser::{self, Impossible};
+use serde::ser;
 use serde::{Deserialize, Serialize};
 use std::fmt;
 
@@ -57,10 +57,10 @@ impl<'a, 'b> ser::Serializer for &'b mut Ser<'a> {
     type SerializeSeq = Self;
     type SerializeTuple = Self;
     type SerializeTupleStruct = Self;
-    type SerializeTupleVariant = Impossible<(), Error>;
-    type SerializeMap = Impossible<(), Error>;
+    type SerializeTupleVariant = Self;
+    type SerializeMap = Self;
     type SerializeStruct = Self;
-    type SerializeStructVariant = Impossible<(), Error>;
+    type SerializeStructVariant = Self;
 
     fn serialize_bool(self, v: bool) -> Result<(), Error> {
         self.out.push(v as u8);
@@ -149,11 +149,13 @@ impl<'a, 'b> ser::Serializer for &'b mut Ser<'a> {
     fn serialize_newtype_variant<T: Serialize + ?Sized>(
         self,
         _: &'static str,
-        _: u32,
+        idx: u32,
         _: &'static str,
-        _: &T,
+        value: &T,
     ) -> Result<(), Error> {
-        unsupported("enum variants")
+        // as bincode does: the variant index, then the content
+        self.out.extend_from_slice(&idx.to_le_bytes());
+        value.serialize(self)
     }
     fn serialize_seq(self, len: Option<usize>) -> Result<Self, Error> {
         match len {
@@ -173,14 +175,21 @@ impl<'a, 'b> ser::Serializer for &'b mut Ser<'a> {
     fn serialize_tuple_variant(
         self,
         _: &'static str,
-        _: u32,
+        idx: u32,
         _: &'static str,
         _: usize,
     ) -> Result<Self::SerializeTupleVariant, Error> {
-        unsupported("enum variants")
+        self.out.extend_from_slice(&idx.to_le_bytes());
+        Ok(self)
     }
-    fn serialize_map(self, _: Option<usize>) -> Result<Self::SerializeMap, Error> {
-        unsupported("maps")
+    fn serialize_map(self, len: Option<usize>) -> Result<Self::SerializeMap, Error> {
+        match len {
+            Some(n) => {
+                self.out.extend_from_slice(&(n as u64).to_le_bytes());
+                Ok(self)
+            }
+            None => unsupported("maps of unknown length"),
+        }
     }
     fn serialize_struct(self, _: &'static str, _: usize) -> Result<Self, Error> {
         Ok(self)
@@ -188,11 +197,12 @@ impl<'a, 'b> ser::Serializer for &'b mut Ser<'a> {
     fn serialize_struct_variant(
         self,
         _: &'static str,
-        _: u32,
+        idx: u32,
         _: &'static str,
         _: usize,
     ) -> Result<Self::SerializeStructVariant, Error> {
-        unsupported("enum variants")
+        self.out.extend_from_slice(&idx.to_le_bytes());
+        Ok(self)
     }
     fn is_human_readable(&self) -> bool {
         false
@@ -244,8 +254,96 @@ impl<'a, 'b> ser::SerializeStruct for &'b mut Ser<'a> {
     }
 }
 
+impl<'a, 'b> ser::SerializeTupleVariant for &'b mut Ser<'a> {
+    type Ok = ();
+    type Error = Error;
+    fn serialize_field<T: Serialize + ?Sized>(&mut self, value: &T) -> Result<(), Error> {
+        value.serialize(&mut **self)
+    }
+    fn end(self) -> Result<(), Error> {
+        Ok(())
+    }
+}
+impl<'a, 'b> ser::SerializeStructVariant for &'b mut Ser<'a> {
+    type Ok = ();
+    type Error = Error;
+    fn serialize_field<T: Serialize + ?Sized>(&mut self, _key: &'static str, value: &T) -> Result<(), Error> {
+        value.serialize(&mut **self)
+    }
+    fn end(self) -> Result<(), Error> {
+        Ok(())
+    }
+}
+impl<'a, 'b> ser::SerializeMap for &'b mut Ser<'a> {
+    type Ok = ();
+    type Error = Error;
+    fn serialize_key<T: Serialize + ?Sized>(&mut self, key: &T) -> Result<(), Error> {
+        key.serialize(&mut **self)
+    }
+    fn serialize_value<T: Serialize + ?Sized>(&mut self, value: &T) -> Result<(), Error> {
+        value.serialize(&mut **self)
+    }
+    fn end(self) -> Result<(), Error> {
+        Ok(())
+    }
+}
+
 pub struct De<'de> {
     data: &'de [u8],
+}
+
+struct Entries<'a, 'de> {
+    de: &'a mut De<'de>,
+    remaining: usize,
+}
+
+impl<'a, 'de> de::MapAccess<'de> for Entries<'a, 'de> {
+    type Error = Error;
+    fn next_key_seed<K: DeserializeSeed<'de>>(&mut self, seed: K) -> Result<Option<K::Value>, Error> {
+        if self.remaining == 0 {
+            return Ok(None);
+        }
+        self.remaining -= 1;
+        seed.deserialize(&mut *self.de).map(Some)
+    }
+    fn next_value_seed<V: DeserializeSeed<'de>>(&mut self, seed: V) -> Result<V::Value, Error> {
+        seed.deserialize(&mut *self.de)
+    }
+    fn size_hint(&self) -> Option<usize> {
+        Some(self.remaining)
+    }
+}
+
+struct Variant<'a, 'de> {
+    de: &'a mut De<'de>,
+}
+
+impl<'a, 'de> de::EnumAccess<'de> for Variant<'a, 'de> {
+    type Error = Error;
+    type Variant = Self;
+    fn variant_seed<V: DeserializeSeed<'de>>(self, seed: V) -> Result<(V::Value, Self), Error> {
+        let mut b = [0u8; 4];
+        b.copy_from_slice(self.de.take(4)?);
+        let idx = u32::from_le_bytes(b);
+        let v = seed.deserialize(de::value::U32Deserializer::<Error>::new(idx))?;
+        Ok((v, self))
+    }
+}
+
+impl<'a, 'de> de::VariantAccess<'de> for Variant<'a, 'de> {
+    type Error = Error;
+    fn unit_variant(self) -> Result<(), Error> {
+        Ok(())
+    }
+    fn newtype_variant_seed<T: DeserializeSeed<'de>>(self, seed: T) -> Result<T::Value, Error> {
+        seed.deserialize(self.de)
+    }
+    fn tuple_variant<V: Visitor<'de>>(self, len: usize, visitor: V) -> Result<V::Value, Error> {
+        de::Deserializer::deserialize_tuple(self.de, len, visitor)
+    }
+    fn struct_variant<V: Visitor<'de>>(self, fields: &'static [&'static str], visitor: V) -> Result<V::Value, Error> {
+        de::Deserializer::deserialize_tuple(self.de, fields.len(), visitor)
+    }
 }
 
 impl<'de> De<'de> {
@@ -389,8 +487,9 @@ impl<'a, 'de> de::Deserializer<'de> for &'a mut De<'de> {
     ) -> Result<V::Value, Error> {
         self.deserialize_tuple(len, visitor)
     }
-    fn deserialize_map<V: Visitor<'de>>(self, _: V) -> Result<V::Value, Error> {
-        unsupported("maps")
+    fn deserialize_map<V: Visitor<'de>>(self, visitor: V) -> Result<V::Value, Error> {
+        let remaining = self.len()?;
+        visitor.visit_map(Entries { de: self, remaining })
     }
     fn deserialize_struct<V: Visitor<'de>>(
         self,
@@ -404,9 +503,9 @@ impl<'a, 'de> de::Deserializer<'de> for &'a mut De<'de> {
         self,
         _: &'static str,
         _: &'static [&'static str],
-        _: V,
+        visitor: V,
     ) -> Result<V::Value, Error> {
-        unsupported("enums")
+        visitor.visit_enum(Variant { de: self })
     }
     fn deserialize_identifier<V: Visitor<'de>>(self, _: V) -> Result<V::Value, Error> {
         unsupported("identifiers")
